@@ -370,7 +370,8 @@ func casIsMonotone(p *Prog, r *Roles, ck *compactKeyRole, c ssa.CallInstruction)
 		oldVal, newRev, site = actual(oldVal), actual(newRev), sites[0]
 	}
 	for _, gc := range conds {
-		extra[pureKeyC(gc.c, chain[gc.level:])] = gc.want
+		k, w := canonCondKey(gc.c, gc.want, chain[gc.level:])
+		extra[k] = w
 	}
 	get, idx, ok := extractOf(oldVal)
 	if !ok || idx != 0 || !r.is(get, r.KVGet) || !ck.isKey(argForSigParam(get, 1)) {
@@ -381,7 +382,17 @@ func casIsMonotone(p *Prog, r *Roles, ck *compactKeyRole, c ssa.CallInstruction)
 	}
 	ok, witness := allPathsPassWith(site.Block(), func(e edge) bool {
 		cf := edgeFact(e)
-		return cf.X != nil && guardNotGreater(cf, oldVal, newRev)
+		if cf.X != nil && guardNotGreater(cf, oldVal, newRev, nil) {
+			return true
+		}
+		// the comparison may sit in a boolean helper: what its only return of that value implies, in terms of the actuals
+		hf, subst := helperTrueFacts(cf, 0)
+		for _, h := range hf {
+			if h.X != nil && guardNotGreater(h, oldVal, newRev, subst) {
+				return true
+			}
+		}
+		return false
 	}, extra)
 	if ok {
 		return "CAS expects the value just read and every feasible path to it passes the guard stored <= new", true
@@ -390,12 +401,19 @@ func casIsMonotone(p *Prog, r *Roles, ck *compactKeyRole, c ssa.CallInstruction)
 }
 
 // guardNotGreater: the fact implies stored <= new (or stored < new), where stored = BigEndian.Uint64(oldVal).
-func guardNotGreater(cf condFact, oldVal, newRev ssa.Value) bool {
+func guardNotGreater(cf condFact, oldVal, newRev ssa.Value, subst map[ssa.Value]ssa.Value) bool {
+	actual := func(v ssa.Value) ssa.Value {
+		v = resolve(v)
+		if a, ok := subst[v]; ok {
+			return resolve(a)
+		}
+		return v
+	}
 	isStored := func(v ssa.Value) bool {
 		b, ok := decodedUint64(v)
-		return ok && resolve(b) == oldVal
+		return ok && actual(b) == oldVal
 	}
-	isNew := func(v ssa.Value) bool { return resolve(v) == newRev }
+	isNew := func(v ssa.Value) bool { return actual(v) == newRev }
 	op, want := cf.Op, cf.Want
 	x, y := cf.X, cf.Y
 	switch {
